@@ -1047,7 +1047,10 @@ class Frame(object):
                             return True
                 return False
             b = getattr(builtins, str(exc.cls), None)
-            return isinstance(b, type) and isinstance(target, type) and issubclass(b, target)
+            if not isinstance(b, type):
+                # an exception class the model does not know: it is some Exception
+                return target in (Exception, BaseException)
+            return isinstance(target, type) and issubclass(b, target)
         return False
 
     # -- expressions --------------------------------------------------------
@@ -1933,6 +1936,11 @@ def lib_call(fr: Frame, dotted: str, args, kwargs, node):
             return t
         if isinstance(v, Term):
             return Term("len", v)
+        if isinstance(v, AMap):
+            t = Aff.sym("len:map:%s" % v.base)
+            I.path.cons.add(t)
+            I.path.effects.append(("map-len", v.base))
+            return t
         fr.unsupported(node, "len of %r" % (v,))
     if dotted == "builtins.str":
         v = args[0]
@@ -1975,6 +1983,12 @@ def lib_call(fr: Frame, dotted: str, args, kwargs, node):
         if isinstance(v, ARec):
             return RecType(v.circular)
         return Term("type", _t(v))
+    if dotted == "builtins.divmod" and len(args) == 2 and all(isinstance(a, (Aff, int)) and not isinstance(a, bool) for a in args):
+        a, b = Aff.of(args[0]), Aff.of(args[1])
+        if a.is_const and b.is_const and b.c != 0:
+            return divmod(a.c, b.c)
+        q = I.floordiv(a, b)
+        return (q, a - b.scale(q))
     if dotted == "builtins.reversed" and len(args) == 1 and isinstance(args[0], ARange):
         return ARange(args[0].lo, args[0].hi, desc=not args[0].desc)
     if dotted == "builtins.enumerate":
